@@ -269,12 +269,18 @@ def part_keys(ctx, env, G):
             refparams = {}
             for dn, d in ds.items():
                 try:
-                    c = stmt.compile(dialect=d)
+                    c = stmt.compile(dialect=d, column_keys=[])  # same column_keys as the cached path below
                     m = _namemap(c)
                     sig[dn] = (_norm_sql(str(c), m), _bindsig(c))
-                    refparams[dn] = _norm_params(_processed(c, c.construct_params(escape_names=False)), m)
                 except (sa_exc.SQLAlchemyError, NotImplementedError) as e:
                     sig[dn] = ("EXC", type(e).__name__)
+                    continue
+                try:
+                    refparams[dn] = _norm_params(_processed(c, c.construct_params(escape_names=False)), m)
+                except sa_exc.SQLAlchemyError as e:
+                    # e.g. "a value is required for bind parameter": a property of the values (.params() is not part
+                    # of the cache key), not of the compiled form; the cached path has to fail the same way
+                    refparams[dn] = ("EXC", type(e).__name__)
             ctx.count("uncached_compiles", len(ds))
             # ---- K
             rec = groups.get(ck.key)
@@ -320,21 +326,24 @@ def part_keys(ctx, env, G):
                     compiled, extracted, param_dict, hit = stmt._compile_w_cache(
                         d, compiled_cache=caches[dn], column_keys=[], for_executemany=False, schema_translate_map=None)
                     mc = _namemap(compiled)
-                    got = _norm_params(_processed(compiled, compiled.construct_params(
-                        extracted_parameters=extracted, escape_names=False, _collected_params=param_dict)), mc)
+                    try:
+                        got = _norm_params(_processed(compiled, compiled.construct_params(
+                            extracted_parameters=extracted, escape_names=False, _collected_params=param_dict)), mc)
+                    except sa_exc.SQLAlchemyError as e:
+                        got = ("EXC", type(e).__name__)
                 except (sa_exc.SQLAlchemyError, NotImplementedError) as e:
                     ctx.violation("cached-compile-raises-uncached-does-not:" + type(e).__name__,
                                   f"{dn}: uncached compile succeeded, cached path raised {e!r}", {"spec": sp, "dialect": dn})
                     continue
                 is_hit = hit.name == "CACHE_HIT"
                 ctx.count("cached_param_checks")
-                if b.named:
+                if b.named and isinstance(got, dict) and isinstance(refparams[dn], dict):
                     # execution-time parameters for the explicitly named binds, other literals still
                     # have to come from *this* statement
                     over = {sorted(b.named)[0]: 4242}
                     got2 = _norm_params(_processed(compiled, compiled.construct_params(
                         dict(over), extracted_parameters=extracted, escape_names=False, _collected_params=param_dict)), mc)
-                    c2 = stmt.compile(dialect=d)
+                    c2 = stmt.compile(dialect=d, column_keys=[])
                     ref2 = _norm_params(_processed(c2, c2.construct_params(dict(over), escape_names=False)), _namemap(c2))
                     ctx.count("cached_param_checks_with_exec_params")
                     if got2 != ref2 and got == refparams[dn]:
@@ -353,7 +362,8 @@ def part_keys(ctx, env, G):
                         f"{dn}: cached Compiled string {cached_sql!r} != uncached {sig[dn][0]!r}",
                         {"spec": sp, "dialect": dn, "hit": is_hit})
                 elif got != refparams[dn]:
-                    bad = sorted(k for k in set(got) | set(refparams[dn]) if got.get(k, "<missing>") != refparams[dn].get(k, "<missing>"))
+                    bad = (sorted(k for k in set(got) | set(refparams[dn]) if got.get(k, "<missing>") != refparams[dn].get(k, "<missing>"))
+                           if isinstance(got, dict) and isinstance(refparams[dn], dict) else ["<error-vs-values>"])
                     ctx.violation(
                         "cacheable-statement:bindparam-with-uncacheable-type" if _has_uncacheable_bind_type(sp) else
                         "cache-vs-disabled:params-conflict-between-siblings" if _sibling_params_conflict(sp) else
